@@ -47,6 +47,46 @@ def _short(q):
     return q.replace('djinterop::engine::', '').replace('djinterop::', '')
 
 
+def runtime_statics(prog, chk, rid):
+    """A function-local static (or namespace-scope variable) whose initialiser depends on a
+    parameter, on `this` or on a call is computed once per process and then shared by every library
+    opened in it - state outside the database even when it is declared const.  Accepted: statics
+    initialised from literals / constant expressions only."""
+    n = 0
+    for f in prog.functions.values():
+        if f.body is None or f.is_pattern or not prog.in_repo(f.file):
+            continue
+        pids = {p.get('id') for p in f.params}
+        for v in walk(f.body):
+            if v.get('kind') != 'VarDecl' or v.get('storageClass') != 'static':
+                continue
+            n += 1
+            init = [x for x in children(v) if not x['kind'].endswith('Attr') and not x['kind'].endswith('Comment')]
+            dyn = None
+            for x in (walk(init[-1]) if init else ()):
+                k = x.get('kind')
+                if k == 'CXXThisExpr':
+                    dyn = 'this'
+                elif k == 'DeclRefExpr' and (x.get('referencedDecl') or {}).get('id') in pids:
+                    dyn = 'parameter %s' % (x.get('referencedDecl') or {}).get('name')
+                elif k in ('CXXMemberCallExpr',) or (k == 'CallExpr' and not v.get('constexpr')):
+                    callee = strip(children(x)[0]) if children(x) else {}
+                    nm = callee.get('name') or (callee.get('referencedDecl') or {}).get('name')
+                    dyn = dyn or ('call of %s' % nm)
+                if dyn and dyn != 'call of None':
+                    break
+            short = '::'.join((f.qualname or '').split('::')[-2:])
+            inst = 'static %s in %s is initialised from constants only' % (v.get('name'), short)
+            if dyn and not v.get('constexpr'):
+                chk.violation(rid, '%s|static %s initialised at run time' % (short, v.get('name')), locstr(v),
+                              'static %s %s in %s is initialised from %s: the value is computed on the first call '
+                              'and then used for every library the process opens, whatever their content' % (
+                                  v.get('type'), v.get('name'), short, dyn))
+            else:
+                chk.ok(rid, inst, locstr(v))
+    return n
+
+
 def run(tier='quick'):
     prog = program.load()
     cg = callgraph.get(prog)
@@ -89,6 +129,7 @@ def run(tier='quick'):
         else:
             chk.ok(N1, inst, locstr(r.node))
     # statics
+    runtime_statics(prog, chk, N1)
     n_static = 0
     for f in prog.functions.values():
         if f.body is None or f.is_pattern or '/schema/' in (f.file or ''):
